@@ -38,19 +38,23 @@ def gen(rng):
     n_lcd = rng.choice([1, 1, 2])
     anims = []
     lcds = []
+    # display names: unrelated, or one being a prefix of the other (generated identifiers are derived from them)
+    nm = rng.choice([["lcd0", "lcd1"], ["lcd", "lcd_2"], ["panel", "panel_big"], ["d", "d_"], ["top", "bottom"]])
+    chunks = []
     for li in range(n_lcd):
         if i2c and li == 0:
-            L.append(f"lcd{li} = LCD(i2c_addr=39, cols={cols}, rows={rows})")
+            L.append(f"{nm[li]} = LCD(i2c_addr=39, cols={cols}, rows={rows})")
         else:
             b = 2 + li * 6
-            L.append(f"lcd{li} = LCD(rs={b}, en={b + 1}, d4={b + 2}, d5={b + 3}, d6={b + 4}, d7={b + 5}, cols={cols}, rows={rows})")
+            L.append(f"{nm[li]} = LCD(rs={b}, en={b + 1}, d4={b + 2}, d5={b + 3}, d6={b + 4}, d7={b + 5}, cols={cols}, rows={rows})")
         lcds.append({"idx": li, "cols": cols, "rows": rows})
         used_rows = rng.sample(range(rows), rng.randint(1, min(rows - 1, 2)) if rows > 1 else 1)
         static_rows = [r for r in range(rows) if r not in used_rows]
         for r in static_rows:
             txt = ("static" + str(r) + "________________________________________")[:cols]
-            L.append(f"lcd{li}.line({r}, \"{txt}\")")
+            L.append(f"{nm[li]}.line({r}, \"{txt}\")")
         for r in used_rows:
+            chunk_from = len(L)
             style = rng.choice(STYLES)
             text = text_of(rng, cols)
             speed = rng.choice([0, 1, 50, 200, 20])
@@ -61,17 +65,17 @@ def gen(rng):
             form = rng.random()
             sp_style = rng.choice([style, style, style, style.upper(), style.capitalize()])  # the name is case-insensitive
             if form < 0.5:
-                L.append(f"lcd{li}.animate(\"{sp_style}\", {r}, {text!r}, speed_ms={speed}, loop={loop})")
+                L.append(f"{nm[li]}.animate(\"{sp_style}\", {r}, {text!r}, speed_ms={speed}, loop={loop})")
             elif form < 0.8:
-                L.append(f"lcd{li}.animate(style=\"{sp_style}\", row={r}, text={text!r}, loop={loop}, speed_ms={speed})")
+                L.append(f"{nm[li]}.animate(style=\"{sp_style}\", row={r}, text={text!r}, loop={loop}, speed_ms={speed})")
             else:
                 L.append(f"sp = {speed}")
-                L.append(f"lcd{li}.animate(\"{sp_style}\", {r}, {text!r}, speed_ms=sp, loop={loop})")
+                L.append(f"{nm[li]}.animate(\"{sp_style}\", {r}, {text!r}, speed_ms=sp, loop={loop})")
             if rng.random() < 0.2:
                 # the animation is started from inside a block (try/except, for, if-else): it still has to be ticked
                 call = L.pop()
                 pre = []
-                if call.startswith("lcd") and L and L[-1].startswith("sp = "):
+                if L and L[-1].startswith("sp = "):
                     pre = [L.pop()]
                 wrap = rng.choice(["try", "for", "ifelse"])
                 if wrap == "try":
@@ -81,8 +85,16 @@ def gen(rng):
                 else:
                     L += pre + ["if 2 > 3:", "    pass", "else:", "    " + call]
             L.append(f"mon.write(\"@start\")")
+            chunks.append(L[chunk_from:])
+            del L[chunk_from:]
             anims.append({"lcd": li, "row": r, "style": style, "text": text, "speed": speed, "loop": loop, "cols": cols,
                           "static_rows": static_rows})
+    # the animations are started in an order that interleaves the displays (A, B, A ...)
+    order = list(range(len(chunks)))
+    if rng.random() < 0.6:
+        rng.shuffle(order)
+    for ci in order:
+        L += chunks[ci]
     period = rng.choice([0, 1, 10, 50, 60, 250])
     has_button = rng.random() < 0.35
     if has_button:
@@ -294,9 +306,15 @@ def run_host_case(case):
         steps = 0
         last_step_t = None
         horizon = 3 * B + 10
+        # a steady stream of ticks much faster than the animation's period, long enough to pass the wrap-around several times
+        steady = speed > 0 and r.random() < 0.35
+        if steady:
+            horizon = min(4000, 25 * (B + 2))
         for k in range(horizon):
             mode = r.random()
             inc = 0 if mode < 0.15 else (speed if mode < 0.5 else r.choice([1, max(1, speed // 2), speed + 1, 3 * speed + 1, 1000]))
+            if steady:
+                inc = max(1, speed // 10)
             now += inc
             if now <= 0:
                 now = 1
@@ -324,7 +342,8 @@ def run_host_case(case):
                 if list(lcd.buffer) != mine:
                     problems.append(("host-cross-display", f"ticking another display changed the buffer of the display running {label}"))
             stepped = state.last_tick != before_tick or (state.last_tick == now and before_tick == now and False)
-            if state.last_tick == now and before_tick != now:
+            # a step is seen from the outside as a changed frame (and/or from the state's own time stamp)
+            if (state.last_tick == now and before_tick != now) or lcd.buffer[row] != before:
                 if last_step_t is not None and last_step_t > 0 and speed > 0 and now - last_step_t < speed:
                     problems.append(("host-too-fast", f"{label}: steps at {last_step_t} and {now}"))
                 last_step_t = now
